@@ -20,6 +20,7 @@ def run(ctx):
     ctx.rule("R05.1", "ENUM-BOUND: rtosc_match_number returns exactly `val < max` (table over 0..5 x 0..5) with val = atoi(message digits), max = atoi(pattern digits); both cursors must point at a digit and both digit runs are skipped")
     ctx.rule("R05.2", "ENUM-HONOURED: each call of rtosc_match_number is the (negated) condition of a branch that fails the whole match")
     ctx.rule("R05.4", "RETRY-RESTORES: in rtosc_match_options every jump back to try the next alternative is preceded, since the nearest label, by the restore of the message cursor to its value at entry, with no later change of the cursor")
+    ctx.rule("R05.5", "TYPE-MATCHER-CLONES: the three hand-written copies of the type-alternative matcher (dispatch.c, two in ports.cpp) are the same function up to renaming - a change to one copy only makes the accepted type strings depend on the lookup strategy")
     ctx.rule("R05.3", "ENUM-SIBLING: rtosc_match_partial's enumerated case compares atoi(address) < atoi(pattern) strictly")
     fn = u.function("rtosc_match_number")
     ps = u.params(fn)
@@ -118,6 +119,22 @@ def run(ctx):
     rref = {y["referencedDecl"]["id"] for y in A.walk(r) if y.get("kind") == "DeclRefExpr" and y["referencedDecl"]["kind"] == "ParmVarDecl"}
     ok = (x.get("opcode") == "<" and lref == {ps2[0]["id"]} and rref == {ps2[1]["id"]}) or (x.get("opcode") == ">" and lref == {ps2[1]["id"]} and rref == {ps2[0]["id"]})
     _r054(ctx, u)
+    from . import C04
+    import re as _re
+    up = ctx.ast("ports.cpp")
+    c1, c2, c3 = u.function("rtosc_match_args"), up.function("arg_matcher"), up.function("Port_Matcher::rtosc_match_args")
+
+    def leaf(t):
+        t = _re.sub(r'rtosc_argument_string\(v1\)', 'ARGS', t)
+        t = _re.sub(r'= v1;', '= ARGS;', t)
+        t = _re.sub(r'\b_Bool\b', 'bool', t)
+        t = _re.sub(r'\btrue\b', '1', t)
+        return _re.sub(r'\bfalse\b', '0', t)
+    n1, n2, n3 = leaf(C04.norm_matcher(u, c1)), leaf(C04.norm_matcher(up, c2)), leaf(C04.norm_matcher(up, c3))
+    ctx.ob("R05.5", "dispatch.c:rtosc_match_args == ports.cpp:Port_Matcher::rtosc_match_args", n1 == n3, site=A.where(c1), detail={"dispatch.c": n1[:300], "ports.cpp": n3[:300]},
+           what="the type-alternative matcher of dispatch.c differs from the copy the hashed lookup uses")
+    ctx.ob("R05.5", "dispatch.c:rtosc_match_args == ports.cpp:arg_matcher", n1 == n2, site=A.where(c1), detail={"dispatch.c": n1[:300], "ports.cpp": n2[:300]},
+           what="the type-alternative matcher of dispatch.c differs from arg_matcher")
     ctx.ob("R05.3", "rtosc_match_partial", ok, site=A.where(x), detail={"comparison": A.src(x)}, what="rtosc_match_partial bounds an enumeration with `%s`" % A.src(x))
 
 
